@@ -9,7 +9,7 @@ use std::collections::BTreeMap;
 
 pub static PROP: Prop = Prop {
     id: "C20",
-    rule: "(a) serializable value trees decoded from a proptest choice vector (null, bool, integers over the whole i64 range with boundary bias, finite floats incl. -0.0, 1e21, 5e-324 and integral floats, strings over an alphabet with quotes, backslashes, control characters, newlines, multi-byte characters, format-significant words (true, null, ~, 1.5, 2001-01-01, empty) , lists, tuples, string-keyed maps with awkward keys, nesting depth <= 5) passed into a script that calls X.to_string, X.from_string, X.to_string, X.from_string for X in json / yaml / toml: the first result equals the input in normal form (sequences become tuples; integral floats stay floats), the second round trip is the identity on value and text; for toml a tree containing null, or whose top level is not a map, must be rejected with an error. (b) corrupted documents: every serialized text from (a) mutated by deleting, duplicating, swapping or replacing characters, truncating, or splicing format-specific tokens (huge integers, 1e999, deep nesting, bad escapes, tabs, anchors and aliases, dates), plus raw choice-vector noise: from_string returns a value or an error and never panics; any value it returns must itself survive to_string / from_string unchanged when it is serializable. (c) Rust data (structs, unit / newtype / tuple / struct enum variants, options, vectors, tuples, string-keyed and integer-keyed maps, i8..i64, u8..u64, f32, f64, bool, char, String, unit) generated from a choice vector: from_koto_value(to_koto_value(x)) == x; u64 values above i64::MAX must be rejected with an error. Non-trivial: (a) the tree nests a container or holds an awkward string/number; (b) every case; (c) every case.",
+    rule: "(a) serializable value trees decoded from a proptest choice vector (null, bool, integers over the whole i64 range with boundary bias, finite floats incl. -0.0, 1e21, 5e-324 and integral floats, strings over an alphabet with quotes, backslashes, control characters, newlines, multi-byte characters, format-significant words (true, null, ~, 1.5, 2001-01-01, empty) , lists, tuples, string-keyed maps with awkward keys, nesting depth <= 5) passed into a script that calls X.to_string, X.from_string, X.to_string, X.from_string for X in json / yaml / toml: the first result equals the input in normal form (sequences become tuples; integral floats stay floats), the second round trip is the identity on value and text; for toml a tree containing null, or whose top level is not a map, must be rejected with an error. (b) corrupted documents: every serialized text from (a) mutated by deleting, duplicating, swapping or replacing characters, truncating, or splicing format-specific tokens (huge integers, 1e999, deep nesting, bad escapes, tabs, anchors and aliases, dates), plus raw choice-vector noise: from_string returns a value or an error and never panics; any value it returns must itself survive to_string / from_string unchanged when it is serializable; a complete json / toml document followed on a new line by further data (a closing bracket, a comma, a second document, a bare word) must be rejected. (c) Rust data (structs, unit / newtype / tuple / struct enum variants, options, vectors, tuples, string-keyed and integer-keyed maps, i8..i64, u8..u64, f32, f64, bool, char, String, unit) generated from a choice vector: from_koto_value(to_koto_value(x)) == x; u64 values above i64::MAX must be rejected with an error. Non-trivial: (a) the tree nests a container or holds an awkward string/number; (b) every case; (c) every case.",
     assumptions: &[
         "nested options (Some(None)) are not generated: self-describing formats cannot represent them",
         "NaN and infinities are excluded as the property states; yaml documents are single documents",
@@ -385,6 +385,24 @@ fn eval_out_of_range(rt: &mut Rt, text: &str, fmt: &str) -> Eval {
     ev
 }
 
+/// junk that makes any complete document malformed when it follows it on a new line
+const TRAILING_JSON: [&str; 10] = ["]", "}", ",", "x", "[1]", "{}", "\"s\"", "null", "1", ":"];
+const TRAILING_TOML: [&str; 4] = ["]", "}", "x y", "= 1"];
+
+fn eval_trailing(rt: &mut Rt, text: &str, fmt: &str) -> Eval {
+    let mut ev = Eval::pass(true).class("trailing-junk");
+    rt.koto.exports_mut().clear();
+    rt.koto.prelude().insert("input", KValue::Str(text.into()));
+    let src = PARSE_AND_BACK.replace("FMT", fmt);
+    let _ = kx::run_on(&mut rt.koto, &src, &RunOpts::default());
+    rt.cap.take();
+    if matches!(rt.koto.exports().get("ok"), Some(KValue::Bool(true))) {
+        let got = rt.koto.exports().get("r").and_then(|v| from_kvalue(&v));
+        ev.fail = Some(Fail::new(format!("c20:{fmt}:trailing-junk-accepted"), format!("{fmt}.from_string accepted {text:?} (a complete document followed by more data) as {:?}", got.map(|g| serde_json::to_string(&g).unwrap_or_default()))));
+    }
+    ev
+}
+
 // ---------------------------------------------------------------------------------------------
 // (c) Rust data through serde
 
@@ -576,6 +594,17 @@ fn run_shard(ctx: &mut Ctx) {
                 let _ = k;
                 ctx.run_case(&cj, || eval_text(&mut rt, &bad, fmt));
             }
+            // a complete document followed by more data is malformed
+            let junk: &[&str] = match fmt {
+                "json" => &TRAILING_JSON,
+                "toml" => &TRAILING_TOML,
+                _ => &[],
+            };
+            if !junk.is_empty() {
+                let bad = format!("{}\n{}{}", text.trim_end(), junk[s.below(junk.len() as u32) as usize], if s.chance(50) { "\n" } else { "" });
+                let cj = json!({"kind": "trailing", "format": fmt, "text": bad});
+                ctx.run_case(&cj, || eval_trailing(&mut rt, &bad, fmt));
+            }
         }
         // raw noise
         if i % 4 == 0 {
@@ -623,6 +652,7 @@ fn replay(case: &Value) -> Option<Fail> {
             eval_tree(&mut rt, &t, case["format"].as_str()?).1.fail
         }
         "text" => eval_text(&mut rt, case["text"].as_str()?, case["format"].as_str()?).fail,
+        "trailing" => eval_trailing(&mut rt, case["text"].as_str()?, case["format"].as_str()?).fail,
         "out-of-range" => eval_out_of_range(&mut rt, case["text"].as_str()?, case["format"].as_str()?).fail,
         "rust" => {
             let cs: Vec<u32> = serde_json::from_value(case["choices"].clone()).ok()?;
